@@ -23,7 +23,7 @@ import traceback
 
 VERIF = os.path.dirname(os.path.dirname(os.path.abspath(__file__)))
 REPO = os.environ.get("VERIF_REPO", "/repo")
-OUT = os.path.join(VERIF, "out")
+OUT = os.environ.get("VERIF_OUT") or os.path.join(VERIF, "out")
 PY = os.environ.get("VERIF_PY", "/venv/bin/python")
 MAX_SAMPLES = 6
 MAX_VIOL_PER_SHARD = 40
